@@ -76,4 +76,6 @@ def main(tier):
     chk.run("R-INTDIGITS", P.intdigits, cx.repo, floor=1)
     chk.run("R-BOUNDMEMO", BR.boundmemo, cx.repo, floor=6)
     chk.run("R-CONSTREFKIND", RR.constrefkind, cx.repo, floor=2)
+    chk.run("R-SHAREDERR", P.sharederr, cx.repo, floor=60)
+    chk.run("R-ALIASATTR", SY.aliasattr, cx.repo, clauses=("attribute_clauses", "anonymous_own"), floor=3)
     return chk.finish()
